@@ -201,6 +201,10 @@ func otherProgram(site string) (string, bool) {
 			"printf \"%c|%d|%s|%5.2f \", v, v, v + 0, v; a[v] = v; n++ } print n; x = $0; if ($0) m++; if (x == 0) m++ } END { print m }", true
 	case "getline-other-file-wider":
 		return "{ x = $1; r = (getline line < OTHERFILE); print r, $1, $4, NF; r = (getline < OTHERFILE); print r, $1, $5, NF; print $0 }", true
+	case "format-ends-after-flag", "format-ends-after-width", "format-ends-after-precision", "format-ends-after-star":
+		f := map[string]string{"format-ends-after-flag": "%-", "format-ends-after-width": "a %5", "format-ends-after-precision": "abc %-08.3",
+			"format-ends-after-star": "%*"}[site]
+		return "BEGIN { printf \"%s|%d\\n\", \"a\", 1 } NR == 1 { x = sprintf(\"" + f + "\", 3.14159, 2); print x; printf \"" + f + "\", 1, 2 }", true
 	case "format-again-with-fewer-args":
 		return "BEGIN { printf \"%s-%s\\n\", \"a\", \"b\"; x = sprintf(\"%d:%*d|%c\", 1, 4, 2, 65); print x; f = \"%s %s %s\\n\"; printf f, 1, 2, 3 } " +
 			"END { printf \"%s-%s\\n\", \"a\"; x = sprintf(\"%d:%*d|%c\", 1, 4); print x; printf f, 1 }", true
